@@ -318,6 +318,10 @@ func genRequest(t *rapid.T, hosts []Host, kind string) Op {
 		op.TLS12 = rapid.IntRange(0, 2).Draw(t, "tls12") == 0
 		op.Std = rapid.Bool().Draw(t, "std")
 		op.TCP = rapid.IntRange(0, 2).Draw(t, "tcp") == 0
+		if rapid.Bool().Draw(t, "restricted_client") {
+			op.Client = rapid.SampledFrom(clientProfileNames).Draw(t, "client")
+			op.TLS12 = false
+		}
 	}
 	return op
 }
@@ -478,7 +482,7 @@ var oracleText = "oracle: chain verifies under the CA for the named host (SNI, e
 
 var propMachine = &kit.Prop[Case]{
 	ID: "C06", Name: "machine", Journal: true,
-	Rule:       "rapid-drawn histories of 1..12 operations (direct GetCertificate, real handshake TLS1.2/1.3, concurrent burst, no-name request, request for a name no certificate can be issued for - raw UTF-8 IDN as SNI or authority -, sweep of 2..300 distinct names) over one mitm.Config with a drawn organization, a drawn validity (default hour in half of the cases, else one minute .. 292 years) and a pool of 1..3 hosts in 1..3 spellings each (LDH names 1..4 labels, mixed case, IPv4, IPv6 bare / bracketed with port / bracketed without port, siblings); " + oracleText + "; non-trivial = IP literal, host:port form, mixed case, cache hit, or concurrency >= 2",
+	Rule:       "rapid-drawn histories of 1..12 operations (direct GetCertificate, real handshake TLS1.2/1.3 by clients of drawn capability (TLS 1.3 only, TLS 1.2 with ECDHE-RSA suites only, single curves) - 1 in 3 followed by the same name from another kind of client -, concurrent burst, no-name request, request for a name no certificate can be issued for - raw UTF-8 IDN as SNI or authority -, sweep of 2..300 distinct names) over one mitm.Config with a drawn organization, a drawn validity (default hour in half of the cases, else one minute .. 292 years) and a pool of 1..3 hosts in 1..3 spellings each (LDH names 1..4 labels, mixed case, IPv4, IPv6 bare / bracketed with port / bracketed without port, siblings); " + oracleText + "; non-trivial = IP literal, host:port form, mixed case, cache hit, or concurrency >= 2",
 	Run:        budgeted("machine", 8*time.Second, 45*time.Second),
 	NonTrivial: nonTrivial, Classes: classes,
 	Gates: map[string]float64{"nontrivial": 0.7, "ip-literal": 0.2, "host-port": 0.3, "mixed-case": 0.3, "cache-hit": 0.3, "handshake": 0.4, "sni": 0.4, "no-name": 0.08, "ipv6-bare": 0.03, "ipv6-bracket-port": 0.03, "sni-differs-from-fallback": 0.15},
@@ -487,7 +491,15 @@ var propMachine = &kit.Prop[Case]{
 		c.ValidityMs = genLongValidity(t)
 		n := rapid.IntRange(1, 12).Draw(t, "n")
 		for i := 0; i < n; i++ {
-			c.Ops = append(c.Ops, genOp(t, c.Hosts))
+			op := genOp(t, c.Hosts)
+			c.Ops = append(c.Ops, op)
+			if op.Kind == "hs" && rapid.IntRange(0, 2).Draw(t, "other_client_next") == 0 {
+				// the same name again, asked for by a client of other capabilities
+				again := op
+				again.Client = rapid.SampledFrom(append([]string{""}, clientProfileNames...)).Draw(t, "client_again")
+				again.TLS12 = again.Client == "" && !op.TLS12 && op.Client == ""
+				c.Ops = append(c.Ops, again)
+			}
 		}
 		return c
 	},
@@ -586,7 +598,7 @@ var propConcurrent = &kit.Prop[Case]{
 
 var propMatrix = &kit.Prop[Case]{
 	ID: "C06", Name: "matrix",
-	Rule:       "fixed matrix: every listed spelling class (lower/mixed-case names, 63-byte label, 253-byte name, punycode, IPv4, IPv6 loopback/compressed/upper-case/expanded/IPv4-mapped, each bare and with port, three bracketed without port) x {direct, cache hit, handshake TLS1.3, handshake TLS1.2, SNI same / SNI different / SNI through Config.TLS()}, plus the no-name requests (also over real TCP sockets, where a ClientHello has a connection with addresses behind it); three rows repeated under a P-256 authority, three with an h2.Config that allows every host; " + oracleText,
+	Rule:       "fixed matrix: every listed spelling class (lower/mixed-case names, 63-byte label, 253-byte name, punycode, IPv4, IPv6 loopback/compressed/upper-case/expanded/IPv4-mapped, each bare and with port, three bracketed without port) x {direct, cache hit, handshake TLS1.3, handshake TLS1.2, every client capability profile in turn on one name, SNI same / SNI different / SNI through Config.TLS()}, plus the no-name requests (also over real TCP sockets, where a ClientHello has a connection with addresses behind it); three rows repeated under a P-256 authority, three with an h2.Config that allows every host; " + oracleText,
 	Run:        journaled("matrix", func(c Case) kit.Verdict { return run("matrix", c) }),
 	NonTrivial: nonTrivial, Classes: classes,
 }
@@ -629,6 +641,16 @@ func matrixCases() []Case {
 			{Kind: "get", Host: 1},
 			{Kind: "get", Host: 0},
 		}
+		// one name, clients of every capability profile in turn (first a
+		// default one, then the restricted ones, then default again); a second
+		// name the other way round
+		seq := append([]string{""}, clientProfileNames...)
+		for k := range seq {
+			c.Ops = append(c.Ops,
+				Op{Kind: "hs", Host: 0, Sni: "caps-up.example.org", Client: seq[k], Std: k%2 == 0},
+				Op{Kind: "hs", Host: 0, Sni: "caps-down.example.org", Client: seq[len(seq)-1-k], TCP: k%3 == 0})
+		}
+		c.Ops = append(c.Ops, Op{Kind: "hs", Host: 0, Sni: "caps-up.example.org"}, Op{Kind: "hs", Host: 0, Sni: "caps-down.example.org", TLS12: true})
 		if isDNS {
 			c.Ops = append(c.Ops,
 				Op{Kind: "hs", Host: 0, Sni: h.Name, Std: true},
